@@ -3,6 +3,7 @@ NEXT Next
 CONSTANTS NMax = 400
  DMax = 40
 INVARIANT RoundLaws
+INVARIANT NativeCopy
 INVARIANT UnaryLaws
 INVARIANT BinaryLaws
 CHECK_DEADLOCK FALSE
